@@ -373,7 +373,7 @@ var cfgKeys = []string{"k", "pkg", "commit", "goos", "a", "z"}
 var riskyKeys = []string{"name", "gomaxprocs", "sub1", "upload", "by", "upload-file", "upload-part", "upload-time", "b"}
 var vals = []string{"1", "2", "10", "a", "ab", "abc", "b", "a b", `x"y`, `c\d`, "\xc3\xa9", "Z", "~", "v w  ", "0", "a\tb", "x:y", "p>q", "|"}
 var bases = []string{"Foo", "Bar", "F", "Foo-bar", "\xc3\xa9t\xc3\xa9", "Q"}
-var subs = []string{"/x", "/y", "/a=1", "/a=2", "/b=c=d", "/name=q", "/gomaxprocs=3", "/sub2=w", "/x y"[:2], "/z=1"}
+var subs = []string{"/x", "/y", "/a=1", "/a=2", "/b=c=d", "/name=q", "/gomaxprocs=3", "/sub2=w", "/z=1"}
 var sufs = []string{"", "", "", "-4", "-8", "-16", "-+5", "--3", "-x", "-99999999999999999999", "-0", "-9223372036854775807", "-9223372036854775808"}
 var users = []string{"", "", "alice", "bob smith", "carol"}
 var fnames = []string{"", "f.txt", "g.txt", "d/h.txt", "a b.txt", `d\w.txt`, "f.txt"}
